@@ -302,8 +302,12 @@ def _reachable(rec):
 def _neutralise(rec, before):
     """Blocks that were reachable before a pass and are not any more become empty dead ends (they must not stay predecessors)."""
     after = _reachable(rec)
-    for b in before - after:
-        if b < len(rec["blocks"]):
+    nb = (max(before) + 1) if before else 0
+    for b in range(len(rec["blocks"])):
+        if b in after or rec["blocks"][b].get("dead"):
+            continue
+        # blocks the pass disconnected, and blocks it added that ended up unreachable
+        if b in before or (b >= nb and not rec["blocks"][b].get("c")):
             rec["blocks"][b] = {"s": [], "t": {"k": "unreachable"}, "c": 1, "dead": 1}
 
 
@@ -431,6 +435,15 @@ def inline_call(caller, call_block, callee):
                 bb["s"].append({"k": "=", "p": copy.deepcopy(t["d"]), "rv": {"use": {"mv": {"l": ret_local}}}, "l": line, "x": 0})
                 bb["t"] = {"k": "goto", "t": t["t"]} if t["t"] is not None else {"k": "unreachable"}
         newblocks.append(bb)
+    # the callee's return block is folded into its predecessors: `r = v; goto ret` + `ret: dest = r; goto next` reads
+    # `r = v; dest = r; goto next`, the shape the same code has when written in place
+    ret_ix = {base + i for i, (b, s_) in enumerate(order) if callee["blocks"][b]["t"]["k"] == "ret"}
+    for nb in newblocks:
+        if nb["t"]["k"] == "goto" and nb["t"]["t"] in ret_ix:
+            rb = newblocks[nb["t"]["t"] - base]
+            if rb is not nb and rb["t"]["k"] in ("goto", "unreachable") and len(rb["s"]) <= 2:
+                nb["s"].extend(copy.deepcopy(rb["s"]))
+                nb["t"] = copy.deepcopy(rb["t"])
     # the call site: arguments become assignments to the callee's parameter locals
     cb = blocks[call_block]
     for i, a in enumerate(t["a"]):
@@ -667,6 +680,16 @@ def _thread_fn(rec):
                     info = None
                     break
                 rv = d["rv"]
+                # a copy of a flag that was set to a constant earlier in the same block is that constant
+                for _ in range(3):
+                    src = _operand_local(rv["use"]) if "use" in rv else None
+                    if src is None:
+                        break
+                    prev = [st for st in P["s"][:P["s"].index(d)] if st["k"] == "=" and st["p"]["l"] == src and not st["p"].get("p")]
+                    if not prev:
+                        break
+                    d = prev[-1]
+                    rv = d["rv"]
                 if "use" in rv and isinstance(rv["use"].get("k"), dict) and rv["use"]["k"].get("ty") == "bool":
                     info.append((p, "const", str(rv["use"]["k"].get("v")) not in ("0", "false")))
                 elif "bin" in rv or "un" in rv or "use" in rv:
@@ -679,13 +702,25 @@ def _thread_fn(rec):
             arms = {str(v): b for v, b in t["ts"]}
             for p, kind, val in info:
                 P = blocks[p]
-                P["s"].extend(copy.deepcopy(J["s"]))
+                tail = copy.deepcopy(J["s"])
+                tsw = copy.deepcopy(t)
+                if kind == "expr" and locs[c].get("n"):
+                    # a named flag assigned on several paths stays opaque to provenance; let the cloned test read an anonymous
+                    # copy of the very expression assigned here
+                    d = [st for st in P["s"] if st["k"] == "=" and st["p"]["l"] == c and not st["p"].get("p")][-1]
+                    n = len(locs)
+                    locs.append({"t": "bool"})
+                    P["s"].insert(P["s"].index(d) + 1, {"k": "=", "p": {"l": n}, "rv": copy.deepcopy(d["rv"]), "l": d.get("l"), "x": 0})
+                    holder = {"s": tail, "t": tsw}
+                    _rename_local(holder, c, n)
+                    tail, tsw = holder["s"], holder["t"]
+                P["s"].extend(tail)
                 if kind == "const":
                     v = (not val) if neg else val
                     key = "1" if v else "0"
                     P["t"] = {"k": "goto", "t": arms.get(key, t["o"])}
                 else:
-                    P["t"] = copy.deepcopy(t)
+                    P["t"] = tsw
                 n_threaded += 1
             blocks[j] = {"s": [], "t": {"k": "unreachable"}, "c": 1, "dead": 1}
             changed = True
@@ -827,15 +862,17 @@ def _scalarise_fn(rec):
 
 
 def scalarise_tuples(facts):
-    log = []
+    fns = 0
+    reads = 0
     for f in facts.fn_list:
         if f.kind == "const":
             continue
         n = _scalarise_fn(f.rec)
         if n:
             f.refresh()
-            log.append("replaced %d read(s) of a matched-on tuple by its components in %s" % (n, f.path))
-    return log
+            fns += 1
+            reads += n
+    return ["replaced %d read(s) of matched-on tuples by their components in %d function(s)" % (reads, fns)] if fns else []
 
 
 # ---------------------------------------------------------------------------------------------------------------------------
@@ -846,7 +883,8 @@ def _same_operand(a, b):
         return False
     ka, kb = a.get("k"), b.get("k")
     if ka is not None or kb is not None:
-        return ka is not None and kb is not None and ka.get("v") == kb.get("v") and ka.get("ty") == kb.get("ty") and "v" in ka
+        # integer constants are compared by value (the limit appears as u32 in one arm and widened in the comparison)
+        return ka is not None and kb is not None and ka.get("v") == kb.get("v") and "v" in ka and ka.get("ty") != "bool"
     pa = a.get("cp") or a.get("mv")
     pb = b.get("cp") or b.get("mv")
     return pa is not None and pb is not None and pa == pb
@@ -872,9 +910,15 @@ def _minmax_fn(rec):
             if l is None or l <= rec["argc"] or rec["locals"][l].get("n"):
                 return o
             ds = defs.get(l, [])
-            if len(ds) != 1 or ds[0].get("k") != "=" or "use" not in ds[0]["rv"]:
+            if len(ds) != 1 or ds[0].get("k") != "=":
                 return o
-            o = ds[0]["rv"]["use"]
+            rv = ds[0]["rv"]
+            if "use" in rv:
+                o = rv["use"]
+            elif rv.get("cast") == "int" and isinstance(rv["a"], dict) and "k" in rv["a"]:
+                return rv["a"]      # a widened constant is that constant
+            else:
+                return o
         return o
 
     def same(a, b):
@@ -894,15 +938,29 @@ def _minmax_fn(rec):
         if t_blk is None or f_blk is None or t_blk == f_blk:
             continue
 
+        casted = []
+
         def arm(b):
-            """(dest place, source operand, join) when block b is `d = use(op); goto j`."""
+            """(dest place, source operand, join) when block b is `d = use(op); goto j` or `[t = use(op);] d = t as T; goto j`."""
             bb = blocks[b]
-            if bb.get("c") or bb["t"]["k"] != "goto" or len(bb["s"]) != 1:
+            if bb.get("c") or bb["t"]["k"] != "goto" or not (1 <= len(bb["s"]) <= 2):
                 return None
-            s0 = bb["s"][0]
-            if s0["k"] != "=" or "use" not in s0["rv"]:
+            s0 = bb["s"][-1]
+            if s0["k"] != "=":
                 return None
-            return s0["p"], s0["rv"]["use"], bb["t"]["t"]
+            if "use" in s0["rv"]:
+                src = s0["rv"]["use"]
+            elif s0["rv"].get("cast") == "int":
+                src = s0["rv"]["a"]
+                casted.append(s0["rv"]["ty"])
+            else:
+                return None
+            if len(bb["s"]) == 2:
+                s1 = bb["s"][0]
+                if s1["k"] != "=" or "use" not in s1["rv"] or s1["p"].get("p") or _operand_local(src) != s1["p"]["l"]:
+                    return None
+                src = s1["rv"]["use"]
+            return s0["p"], src, bb["t"]["t"]
         at, af = arm(t_blk), arm(f_blk)
         kind = None
         if at and af and at[0] == af[0] and at[2] == af[2]:
@@ -938,8 +996,23 @@ def _minmax_fn(rec):
         if ty is None or ty not in ("u8", "u16", "u32", "u64", "u128", "usize", "i8", "i16", "i32", "i64", "i128", "isize"):
             continue
         B["s"].pop()
-        B["t"] = {"k": "call", "f": {"p": "std::cmp::Ord::%s" % kind, "ga": ty}, "a": [copy.deepcopy(x), copy.deepcopy(y)], "d": copy.deepcopy(dest), "t": join, "u": -1,
-                  "l": t.get("l"), "x": 0}
+        if casted:
+            # the selection happens in the wide type, the result is narrowed afterwards: d = min(x, y) as T
+            xl = _operand_local(x)
+            wty = rec["locals"][xl]["t"] if xl is not None else None
+            if wty is None:
+                B["s"].append(st)
+                continue
+            m = len(rec["locals"])
+            rec["locals"].append({"t": wty})
+            nb = len(blocks)
+            blocks.append({"s": [{"k": "=", "p": copy.deepcopy(dest), "rv": {"cast": "int", "a": {"mv": {"l": m}}, "ty": ty}, "l": t.get("l"), "x": 0}],
+                           "t": {"k": "goto", "t": join}, "c": 0})
+            B["t"] = {"k": "call", "f": {"p": "std::cmp::Ord::%s" % kind, "ga": wty}, "a": [copy.deepcopy(x), copy.deepcopy(y)], "d": {"l": m}, "t": nb, "u": -1,
+                      "l": t.get("l"), "x": 0}
+        else:
+            B["t"] = {"k": "call", "f": {"p": "std::cmp::Ord::%s" % kind, "ga": ty}, "a": [copy.deepcopy(x), copy.deepcopy(y)], "d": copy.deepcopy(dest), "t": join, "u": -1,
+                      "l": t.get("l"), "x": 0}
         n += 1
     return n
 
